@@ -22,7 +22,8 @@
     "The incoming mapping is left unmodified": a Gallina function cannot mutate its argument,
     so this holds of the model by construction and has no proof content; it is carried by
     the correspondence run (before/after snapshots of the incoming tree, value and identity). *)
-From PV Require Import Format FormatProofs Merge MergeProofs.
+From PV Require Import Format FormatProofs Merge MergeProofs GenC10Proofs.
+From PV.Gen Require Import GenC10.
 Open Scope string_scope.
 
 (** * merge: the frame *)
@@ -289,6 +290,60 @@ Theorem C10_defaults_table_absent_sets_formatted : forall ff prot rec s a k v kf
                           else tree_share ff (s_root s) v).
 Proof. exact drow_absent. Qed.
 Print Assumptions C10_defaults_table_absent_sets_formatted.
+
+(** * Tie B: the model's loop bodies ARE the current source
+    [gen_merge_body] / [gen_defaults_body] (Gen/GenC10.v) are regenerated before every build
+    from pypyr/context.py by tools/py2coq_c10.py: the syntax tree of the body of
+    [for k, v in add_me.items()] in [merge_recurse] / [defaults_recurse].  [run_item] (Model/
+    Merge.v) is the meaning of that statement fragment.  The hand-written model equals it for
+    every state, cursor, key, value and EVERY behaviour of the recursive call. *)
+Theorem C10_source_merge_item_is_model : forall ff prot rec s a k v,
+  run_item ff prot rec gen_merge_body s a k v = merge_item ff prot rec s a k v.
+Proof. intros. now apply gen_merge_item_is_model. Qed.
+Print Assumptions C10_source_merge_item_is_model.
+
+Theorem C10_source_defaults_item_is_model : forall ff prot rec s a k v,
+  run_item ff prot rec gen_defaults_body s a k v = defaults_item ff prot rec s a k v.
+Proof. intros. now apply gen_defaults_item_is_model. Qed.
+Print Assumptions C10_source_defaults_item_is_model.
+
+(** ... hence the whole recursion, for every fuel, and the two methods *)
+Theorem C10_source_merge_recurse_is_model : forall ff prot fuel s a items,
+  run_rec ff prot gen_merge_body fuel s a items = merge_rec ff prot fuel s a items.
+Proof. exact gen_merge_rec_is_model. Qed.
+Print Assumptions C10_source_merge_recurse_is_model.
+
+Theorem C10_source_defaults_recurse_is_model : forall ff prot fuel s a items,
+  run_rec ff prot gen_defaults_body fuel s a items = defaults_rec ff prot fuel s a items.
+Proof. exact gen_defaults_rec_is_model. Qed.
+Print Assumptions C10_source_defaults_recurse_is_model.
+
+Theorem C10_source_merge_is_model : forall ff fuel root add,
+  run_top ff fuel gen_merge_body root add = merge_top ff fuel root add.
+Proof. exact gen_merge_top_is_model. Qed.
+Print Assumptions C10_source_merge_is_model.
+
+Theorem C10_source_set_defaults_is_model : forall ff fuel root add,
+  run_top ff fuel gen_defaults_body root add = defaults_top ff fuel root add.
+Proof. exact gen_defaults_top_is_model. Qed.
+Print Assumptions C10_source_set_defaults_is_model.
+
+(** pypyr/dsl.py: the classes derived from SpecialTagDirective are the three tags of [val] *)
+Theorem C10_source_special_tags_is_model : gen_special_tag_classes = special_tag_classes.
+Proof. exact gen_special_tags_is_model. Qed.
+Print Assumptions C10_source_special_tags_is_model.
+
+(** pypyr/steps/contextmerge.py and default.py: key asserted, method called on context[key],
+    len(context[key]) taken afterwards *)
+Theorem C10_source_contextmerge_step_is_model : forall ff fuel root,
+  step_run_src gen_contextmerge_step ff fuel root = step_run true ff fuel root.
+Proof. exact gen_contextmerge_step_is_model. Qed.
+Print Assumptions C10_source_contextmerge_step_is_model.
+
+Theorem C10_source_default_step_is_model : forall ff fuel root,
+  step_run_src gen_default_step ff fuel root = step_run false ff fuel root.
+Proof. exact gen_default_step_is_model. Qed.
+Print Assumptions C10_source_default_step_is_model.
 
 (** * Non-vacuity: concrete instances through the real formatter (evaluated) *)
 Definition ex_root : dict :=
